@@ -1,0 +1,163 @@
+//go:build verif
+
+// Verification hook (build tag `verif` only): lets the /verif harness engine `router` build a
+// configured data plane with fake links and push raw packets through the real fast path
+// (scionPacketProcessor.processPkt). Nothing here is compiled into a normal build.
+
+package router
+
+import (
+	"fmt"
+
+	"github.com/scionproto/scion/pkg/addr"
+	"github.com/scionproto/scion/private/topology"
+	"github.com/scionproto/scion/router/bfd"
+)
+
+// VerifR1Link is a fake Link with a settable identity, scope and liveness. Resolve mirrors the
+// decisions of the udpip internal link (SVC lookup, 4-in-6 and unspecified addresses) without
+// the port-range redirection, and records what it was asked to resolve.
+type VerifR1Link struct {
+	ID     uint16 // what IfID() returns (0 for internal and sibling links)
+	Kind   LinkScope
+	Up     bool
+	Svc    map[addr.SVC]bool // registered base service addresses (internal link only)
+	Name   int               // harness-side identity of the link object
+	Calls  int               // number of Resolve calls since the last Process
+	Host   addr.Host         // last resolved destination
+	Port   uint16            // last resolved port
+	SvcHit bool
+}
+
+func (l *VerifR1Link) IsUp() bool                 { return l.Up }
+func (l *VerifR1Link) IfID() uint16               { return l.ID }
+func (l *VerifR1Link) Metrics() *InterfaceMetrics { return nil }
+func (l *VerifR1Link) Scope() LinkScope           { return l.Kind }
+func (l *VerifR1Link) BFDSession() *bfd.Session   { return nil }
+func (l *VerifR1Link) Send(p *Packet) bool        { return true }
+func (l *VerifR1Link) SendBlocking(p *Packet)     {}
+func (l *VerifR1Link) Resolve(p *Packet, dst addr.Host, port uint16) error {
+	l.Calls++
+	l.Host, l.Port = dst, port
+	switch dst.Type() {
+	case addr.HostTypeSVC:
+		if !l.Svc[dst.SVC().Base()] {
+			return ErrNoSVCBackend
+		}
+		l.SvcHit = true
+	case addr.HostTypeIP:
+		if dst.IP().Is4In6() {
+			return ErrUnsupportedV4MappedV6Address
+		}
+		if dst.IP().IsUnspecified() {
+			return ErrUnsupportedUnspecifiedAddress
+		}
+	default:
+		panic(fmt.Sprintf("unexpected address type returned from DstAddr: %s", dst.Type()))
+	}
+	return nil
+}
+
+var _ Link = (*VerifR1Link)(nil)
+
+// VerifR1DP wraps a data plane whose tables are set directly.
+type VerifR1DP struct {
+	d    *dataPlane
+	proc *scionPacketProcessor
+	used []uint16
+	buf  *[bufSize]byte
+}
+
+// VerifR1Disp* are the fast-path dispositions.
+const (
+	VerifR1Discard = int(pDiscard)
+	VerifR1Forward = int(pForward)
+	VerifR1Slow    = int(pSlowPath)
+	VerifR1Done    = int(pDone)
+)
+
+// VerifR1NewDP builds a data plane with the given local IA and forwarding key (the key is used
+// as is, like dataPlane.SetKey does).
+func VerifR1NewDP(ia addr.IA, key []byte) (*VerifR1DP, error) {
+	d := &dataPlane{
+		underlays: map[string]UnderlayProvider{},
+		Metrics:   metrics,
+		RunConfig: RunConfig{NumProcessors: 1, BatchSize: 8},
+	}
+	if err := d.SetIA(ia); err != nil {
+		return nil, err
+	}
+	if err := d.SetKey(key); err != nil {
+		return nil, err
+	}
+	return &VerifR1DP{d: d, proc: newPacketProcessor(d), buf: &[bufSize]byte{}}, nil
+}
+
+// Reconfigure clears all interfaces and replaces the local IA and the forwarding key (the big
+// interface tables are reused).
+func (v *VerifR1DP) Reconfigure(ia addr.IA, key []byte) error {
+	v.ClearInterfaces()
+	v.d.localIA = 0
+	v.d.macFactory = nil
+	if err := v.d.SetIA(ia); err != nil {
+		return err
+	}
+	if err := v.d.SetKey(key); err != nil {
+		return err
+	}
+	v.proc = newPacketProcessor(v.d)
+	return nil
+}
+
+// SetInterface installs (or, with a nil link, removes) the link, link type and neighbour of an
+// interface id, exactly the three tables AddExternalInterface / AddNextHop fill.
+func (v *VerifR1DP) SetInterface(ifID uint16, l *VerifR1Link, lt topology.LinkType, nb addr.IA) {
+	if l == nil {
+		v.d.interfaces[ifID] = nil
+	} else {
+		v.d.interfaces[ifID] = l
+	}
+	v.d.linkTypes[ifID] = lt
+	v.d.neighborIAs[ifID] = nb
+	v.used = append(v.used, ifID)
+}
+
+// ClearInterfaces removes everything installed with SetInterface.
+func (v *VerifR1DP) ClearInterfaces() {
+	for _, i := range v.used {
+		v.d.interfaces[i] = nil
+		v.d.linkTypes[i] = topology.Unset
+		v.d.neighborIAs[i] = 0
+	}
+	v.used = v.used[:0]
+}
+
+// VerifR1Result is what the fast path did with one packet.
+type VerifR1Result struct {
+	Disp    int
+	Egress  uint16
+	SPType  int // slow path: SCMP type (>= 0), -1 ingress router alert, -2 egress router alert
+	Code    int
+	Pointer int
+	Raw     []byte // packet buffer after processing
+}
+
+// Process pushes raw through processPkt as if it had been received over link.
+func (v *VerifR1DP) Process(raw []byte, link *VerifR1Link) VerifR1Result {
+	pkt := &Packet{buffer: v.buf}
+	pkt.RawPacket = v.buf[minHeadroom : minHeadroom+len(raw)]
+	copy(pkt.RawPacket, raw)
+	pkt.Link = link
+	disp := v.proc.processPkt(pkt)
+	return VerifR1Result{
+		Disp:    int(disp),
+		Egress:  pkt.egress,
+		SPType:  int(pkt.slowPathRequest.spType),
+		Code:    int(pkt.slowPathRequest.code),
+		Pointer: int(pkt.slowPathRequest.pointer),
+		Raw:     append([]byte(nil), pkt.RawPacket...),
+	}
+}
+
+// VerifR1FreshProcessor replaces the packet processor (after a recovered panic).
+func (v *VerifR1DP) VerifR1FreshProcessor() { v.proc = newPacketProcessor(v.d) }
